@@ -7,6 +7,7 @@ origin, for generated targets in origin-, absolute- and authority-form.
 """
 import random
 import ipaddress
+import contextlib
 from typing import Any, Dict, List, Optional, Tuple
 
 from rig import env, driver, shim, audit, resolver, monitors, h11util, gen_http as G
@@ -31,12 +32,16 @@ RULE = ('case = (target form, host kind, port kind, userinfo, path kind, damage)
         'mode live = real proxy driven and connect()/getaddrinfo() observed; non-trivial = host is not a plain '
         'LDH name or port/userinfo present; distinct = target bytes')
 ASSUMPTIONS = ['*.test names resolve through the harness resolver (no DNS in the sandbox)',
-               'only ::1 exists as IPv6 loopback address here']
+               'only ::1 exists as IPv6 loopback address here; live cases on it are serialised machine-wide by a file lock']
 SHARDS = {'quick': 8, 'thorough': 16}
 BUDGET_S = {'quick': 45, 'thorough': 800}
 
 V6 = ['::1', '0:0:0:0:0:0:0:1', '::0:1', '0000:0000:0000:0000:0000:0000:0000:0001', '0::1', '::0001']
 V6_OTHER = ['2001:db8::1', 'fe80::1', '::ffff:127.0.0.1', '2001:DB8:0:0:8:800:200C:417A', '::']
+
+
+class LockTimeout(Exception):
+    pass
 
 
 def ref_split(target: bytes, connect: bool) -> Optional[Dict[str, Any]]:
@@ -247,7 +252,14 @@ def run_case(case: Dict[str, Any]) -> Dict[str, Any]:
         flags = make_flags([], cache_key='c14')
         shim.S.reset()
         rig = StepRig(flags, 'local')
+        excl = contextlib.ExitStack()
         try:
+            if case['host'] == 'ipv6':
+                # ::1 is the only IPv6 loopback address, so a fixed port on it ([::1]:80, :443, ...) exists once
+                # per machine.  Without mutual exclusion another shard's proxy (correctly) connecting to [::1]:80
+                # lands on *this* case's origin, and this case's proxy on theirs.  Valid and damaged targets alike.
+                if not excl.enter_context(env.exclusive('v6-loopback')):
+                    raise LockTimeout()
             ref0 = ref_split(target, connect)
             ip = None
             origin = None
@@ -383,11 +395,14 @@ def run_case(case: Dict[str, Any]) -> Dict[str, Any]:
                     if what == 'origin-path':
                         k += '|path-' + pk
                     viol.append({'key': k, 'detail': {'target': target, 'diff': d, 'client': bytes(client.rx[:100])}})
+        except LockTimeout:
+            inconclusive = 'v6-loopback-lock-timeout'
         except LoopDied as e:
             viol.append({'key': 'live|%s|loop-died:%s' % (cls, e.where()), 'detail': {'target': target, 'tb': e.tb[-800:]}})
         finally:
             audit.stop()
             rig.close()
+            excl.close()
     obs['form:' + case['form']] = 1
     obs['host:' + case['host']] = 1
     nontrivial = case['host'] != 'ldh' or case['port'] != 'absent' or bool(case.get('userinfo'))
